@@ -45,7 +45,9 @@ def Claims (m : Nat) (cT : List Page) : St → List Seg → Prop
   | _, [] => True
   | s, x :: xs =>
     (∃ q rest pt, Fetched q x.t (s1Of s x.t) x.hdr x.rows pt ∧ pt ≠ PT_CLOCK
-      ∧ ∀ f, OfMag m f → (∀ y ∈ xs, Undist f y.t) → cT.find? f = (q :: rest).find? f)
+      ∧ (∀ f, OfMag m f → (∀ y ∈ xs, Undist f y.t) → cT.find? f = (q :: rest).find? f)
+      -- (round 6) FLOF links / X/28 record of the page in progress when its terminating header arrives
+      ∧ CarriesAux q ((run s x.pkts).1.rp m).page)
     ∧ Claims m cT (run s x.pkts).1 xs
 
 /-- the induction: `s` = the state after the packets of `x0` (slot `m` is `Ready`), `xs` = the rest of the cycle,
@@ -55,9 +57,10 @@ theorem chain_ind {tmpl : List Nat} {off : Nat} (m finPage : Nat) (hm : m < 8) :
     (∀ r ∈ x0.rows, 1 ≤ r.1 ∧ r.1 ≤ 25 ∧ GoodRow r.2) →
     (∀ x ∈ xs, SegOk tmpl off m x) → Alt ((x0 :: xs).map (·.t.page) ++ [finPage]) →
     (∃ q rest pt, Fetched q x0.t s1 x0.hdr x0.rows pt ∧ pt ≠ PT_CLOCK
-        ∧ ∀ f, OfMag m f → (∀ y ∈ xs, Undist f y.t) →
+        ∧ (∀ f, OfMag m f → (∀ y ∈ xs, Undist f y.t) →
           (terminatePage (tick (run s (stream xs)).1) m (mag8Of m * 256 + finPage) finPage).1.net.cache.find? f
             = (q :: rest).find? f)
+        ∧ CarriesAux q (s.rp m).page)
     ∧ Claims m (terminatePage (tick (run s (stream xs)).1) m (mag8Of m * 256 + finPage) finPage).1.net.cache s xs
     ∧ (∀ f, OfMag m f → (∀ y ∈ x0 :: xs, Undist f y.t) →
         (terminatePage (tick (run s (stream xs)).1) m (mag8Of m * 256 + finPage) finPage).1.net.cache.find? f
@@ -73,10 +76,10 @@ theorem chain_ind {tmpl : List Nat} {off : Nat} (m finPage : Nat) (hm : m < 8) :
     have hm0 : m0 = m := h0.mag
     subst hm0
     have hne : finPage ≠ page0 := fun e => halt.1 e.symm
-    obtain ⟨q, rest, pt, c1, c2, c3, c4, c5⟩ := seg_close s s1 h _ hdr0 _ hr hm h0.dec hL hrows
+    obtain ⟨q, rest, pt, c1, c2, c3, c4, c5, c6⟩ := seg_close s s1 h _ hdr0 _ hr hm h0.dec hL hrows
       (mag8Of m0 * 256 + finPage) finPage hne
     simp only [stream, List.flatMap_nil, run_nil, List.nil_append]
-    refine ⟨⟨q, rest, pt, c2, c3, fun f _ _ => by rw [c1]⟩, trivial, ?_, ?_, h⟩
+    refine ⟨⟨q, rest, pt, c2, c3, fun f _ _ => by rw [c1], c6⟩, trivial, ?_, ?_, h⟩
     · intro f _ hu
       exact c5 f (hu _ List.mem_cons_self).put
     · exact magPages_own m0 page0 _ (a16_lt hdr0 2 _ h0.hdr.page) _ c4
@@ -91,7 +94,7 @@ theorem chain_ind {tmpl : List Nat} {off : Nat} (m finPage : Nat) (hm : m < 8) :
     subst hm1
     have hne : page1 ≠ page0 := fun e => halt.1 e.symm
     -- closing x0 by the header of x1
-    obtain ⟨q, rest, pt, c1, c2, c3, c4, c5⟩ := seg_close s s1 h _ hdr0 _ hr hm h0.dec hL hrows
+    obtain ⟨q, rest, pt, c1, c2, c3, c4, c5, c6⟩ := seg_close s s1 h _ hdr0 _ hr hm h0.dec hL hrows
       (mag8Of m1 * 256 + page1) page1 hne
     -- opening x1
     obtain ⟨o1, o2, o3, o4, o5, o6⟩ := seg_open s h ⟨m1, page1, s121, s341, fl1⟩ hdr1 h1.hdr h1.dec h1.good items1 h1.items
@@ -102,7 +105,7 @@ theorem chain_ind {tmpl : List Nat} {off : Nat} (m finPage : Nat) (hm : m < 8) :
       (fun x hx => hxs x (List.mem_cons_of_mem _ hx)) halt.2
     rw [stream_cons, run_append]
     simp only []
-    refine ⟨⟨q, rest, pt, c2, c3, ?_⟩, ⟨r1, r2⟩, ?_, ?_, r5⟩
+    refine ⟨⟨q, rest, pt, c2, c3, ?_, c6⟩, ⟨r1, r2⟩, ?_, ?_, r5⟩
     · intro f hf hu
       rw [r3 f hf hu]
       show (run s (hdr1 :: items1.map Item.pkt)).1.net.cache.find? f = _
